@@ -38,7 +38,9 @@ CapS(s) == [i \in 1..Len(s) |-> IF i = 1 THEN Upper(s[i]) ELSE Lower(s[i])]
 
 \* ---- separators ---------------------------------------------------------------
 Comment == <<45, 45, 32, 99, 32, 39, 59>>          \* "-- c ';"  (quote and semicolon inside a comment are inert)
-Separators == << <<>>, <<SP>>, <<TAB>>, <<LF>>, <<CR, LF>>, <<SP, SP>>, <<SP>> \o Comment \o <<LF>>, Comment \o <<LF>>, <<LF>> \o Comment \o <<CR, LF>> >>
+EmptyComment == <<45, 45>>                           \* "--" directly followed by the line break
+Separators == << <<>>, <<SP>>, <<TAB>>, <<LF>>, <<CR, LF>>, <<SP, SP>>, <<SP>> \o Comment \o <<LF>>, Comment \o <<LF>>, <<LF>> \o Comment \o <<CR, LF>>,
+                 <<SP>> \o EmptyComment \o <<LF>>, EmptyComment \o <<LF>>, <<SP>> \o EmptyComment \o <<CR, LF>> >>
 SepNone == 1
 SepSpace == 2
 HasComment(k) == k >= 7
@@ -53,7 +55,8 @@ NeedsSep(a, b) ==
   \/ (a.c = "op" /\ b.c = "op" /\ <<LastC(a), FirstC(b)>> \in {<<45, 45>>, <<60, 61>>, <<62, 61>>, <<33, 61>>, <<61, 62>>, <<58, 58>>, <<58, 58>>})
   \/ (a.c = "op" /\ LastC(a) = 58 /\ b.c = "op" /\ FirstC(b) = 58)
 \* a comment may not follow a minus sign directly ("---" is a comment start after nothing)
-SepAllowed(a, b, k) == (NeedsSep(a, b) => k # SepNone) /\ ((k = 8 /\ LastC(a) = 45) => FALSE)
+StartsWithComment(k) == k \in {8, 11}
+SepAllowed(a, b, k) == (NeedsSep(a, b) => k # SepNone) /\ ((StartsWithComment(k) /\ LastC(a) = 45) => FALSE)
 
 \* ---- layout state -------------------------------------------------------------
 VARIABLES si,      \* which base statement
@@ -140,7 +143,7 @@ SetSep(i, k) ==
 SetLead(k) == /\ k \in SepChoice /\ lead # k /\ lead' = k /\ UNCHANGED <<si, perm, cas, sep, trail, semi>>
 SetTrail(k) ==
   /\ k \in SepChoice /\ trail # k
-  /\ (k = 8 => (semi \/ LastC(LexemesIn(perm)[NLex]) # 45))
+  /\ (StartsWithComment(k) => (semi \/ LastC(LexemesIn(perm)[NLex]) # 45))
   /\ trail' = k /\ UNCHANGED <<si, perm, cas, sep, lead, semi>>
 
 ToggleSemicolon == /\ ~Stmt.create /\ semi' = ~semi /\ UNCHANGED <<si, perm, cas, sep, lead, trail>>
